@@ -29,6 +29,14 @@ def run(ctx):
     # check evasion / pins / double checks in the king's neighbourhood (1152 slices; thorough takes 24 of them)
     ev = [(ctx.seed * 131 + 577 + i * 48) % 1152 for i in range(1 if ctx.tier == "quick" else 24)]
     fam = fam + [("evade-%d" % sl, "Families_pos.cfg", {"VERIF_FAMILY": "evade", "VERIF_VARIANT": "x", "VERIF_FILE": 0, "VERIF_SLICE": sl, "VERIF_SLICES": 1152}) for sl in ev]
+    # double checks with a third slider pinning (battery + pin, every double-checking move played): the incremental
+    # bookkeeping has to record two checkers and a pin at once
+    if ctx.tier == "quick":
+        fam = fam + [("discover-slice", "Families_pos.cfg", {"VERIF_FAMILY": "discover", "VERIF_VARIANT": "x", "VERIF_FILE": ctx.seed % 2,
+                                                            "VERIF_SLICE": (ctx.seed * 5) % 16, "VERIF_SLICES": 16})]
+    else:
+        fam = fam + [("discover-%d-%d" % (f, i), "Families_pos.cfg", {"VERIF_FAMILY": "discover", "VERIF_VARIANT": "x", "VERIF_FILE": f,
+                                                                      "VERIF_SLICE": (ctx.seed + i) % 16, "VERIF_SLICES": 16}) for f in (0, 1) for i in range(6)]
     board_pipeline(ctx, bfs, walks, fam)
     # second sentence of the property in volume: moved board against the same position rebuilt from its text
     # (equality of two observations of the implementation - no oracle, implementation speed)
